@@ -23,6 +23,18 @@ def lruStep (c : Cache Bytes Nat) : List String → Cache Bytes Nat × String
     match Bytes.ofHex k with
     | some k => let r := c.has k; (r.2, boolStr r.1)
     | none => (c, "bad-op")
+  -- rget / rhas: the same calls, made while another goroutine is inside a read section of the cache's lock.
+  -- The history is the same sequential history, so the model does what it does for get / has.
+  | ["rget", k] =>
+    match Bytes.ofHex k with
+    | some k =>
+      let r := c.get k
+      (r.2, match r.1 with | some v => s!"some {v}" | none => "none")
+    | none => (c, "bad-op")
+  | ["rhas", k] =>
+    match Bytes.ofHex k with
+    | some k => let r := c.has k; (r.2, boolStr r.1)
+    | none => (c, "bad-op")
   | ["del", k] =>
     match Bytes.ofHex k with
     | some k => let r := c.delete k; (r.2, boolStr r.1)
